@@ -349,9 +349,45 @@ func GenScriptWide(r *hx.Rand) []RegT {
 	return script
 }
 
-// GenReqWide: requests for C11 — like GenReq, plus a non-ASCII first byte now and then.
+// mergeInstantiate builds a path that instantiates two templates of the same length at once where
+// possible (static of either, else a value): the paths on which the scan order of the compiled matcher
+// and the segment-wise priority of the tree can disagree (K11a).
+func mergeInstantiate(r *hx.Rand, a, b string) string {
+	sa := strings.Split(strings.TrimPrefix(a, "/"), "/")
+	sb := strings.Split(strings.TrimPrefix(b, "/"), "/")
+	out := make([]string, 0, len(sa))
+	for i := range sa {
+		pick := func(s string) (string, bool) {
+			if s == "" || s == "*" || strings.HasPrefix(s, ":") {
+				return "", false
+			}
+			return s, true
+		}
+		if v, ok := pick(sa[i]); ok {
+			out = append(out, v)
+		} else if i < len(sb) {
+			if v, ok := pick(sb[i]); ok {
+				out = append(out, v)
+			} else {
+				out = append(out, hx.Pick(r, values))
+			}
+		} else {
+			out = append(out, hx.Pick(r, values))
+		}
+	}
+	return "/" + strings.Join(out, "/")
+}
+
+// GenReqWide: requests for C11 — like GenReq, plus paths instantiating two templates at once and a
+// non-ASCII first byte now and then.
 func GenReqWide(r *hx.Rand, script []RegT) ReqT {
 	q := GenReq(r, script)
+	if r.Chance(1, 6) && len(script) >= 2 {
+		a, b := hx.Pick(r, script), hx.Pick(r, script)
+		if a.Method == b.Method && a.FullPath() != "/" && b.FullPath() != "/" {
+			q = ReqT{Method: a.Method, Path: mergeInstantiate(r, a.FullPath(), b.FullPath())}
+		}
+	}
 	if r.Chance(1, 25) && len(q.Path) > 1 {
 		rest := ""
 		if i := strings.IndexByte(q.Path[1:], '/'); i >= 0 {
